@@ -756,7 +756,9 @@ impl FixtureDatabase {
         // The format is `name-version`. Split on '-' and take the first segment.
         // Package names can contain hyphens, but the version always starts with a digit,
         // so find the first '-' followed by a digit.
-        let name = if let Some(idx) = name_version.char_indices().position(|(i, c)| {
+        // Note: use the byte offset yielded by char_indices (not the position of the item in
+        // the iterator), otherwise a non-ASCII distribution name is sliced inside a character.
+        let name = if let Some((idx, _)) = name_version.char_indices().find(|&(i, c)| {
             c == '-' && name_version[i + 1..].starts_with(|c: char| c.is_ascii_digit())
         }) {
             &name_version[..idx]
